@@ -106,6 +106,9 @@ enum Case {
     Value(GVal, Vec<VW>),
     /// an entry some of whose values sit under value wrappers, under entry wrappers
     WEntry(VEntry, Vec<W>),
+    /// ONE long-lived stack of stream / format adapters receives a sequence of entries (`true` = boxed);
+    /// the recording format below answers from the script (`o`/`v`/`i`, then `o`)
+    Seq(Vec<char>, Vec<W>, Vec<(bool, GenEntry)>),
 }
 
 #[derive(Clone)]
@@ -484,6 +487,7 @@ impl Case {
                 }
                 s
             }
+            Case::Seq(script, ads, es) => seq_line("S", script, ads, es, false),
         }
     }
     fn decode(line: &str) -> Option<Case> {
@@ -495,6 +499,27 @@ impl Case {
             Some(Case::Value(dec_val(v.trim())?, segs.map(VW::decode).collect::<Option<Vec<_>>>()?))
         } else if let Some(e) = head.strip_prefix("W ") {
             Some(Case::WEntry(VEntry::decode(e)?, segs.map(W::decode).collect::<Option<Vec<_>>>()?))
+        } else if line.starts_with("S ") {
+            let mut groups = line[2..].split(" ;; ");
+            let mut head = groups.next()?.split(" ; ");
+            let script = head.next()?.trim();
+            let script: Vec<char> = if script == "-" {
+                vec![]
+            } else {
+                script.split(',').map(|t| t.chars().next().filter(|c| "ovi".contains(*c) && t.len() == 1)).collect::<Option<Vec<_>>>()?
+            };
+            let ads = head.map(W::decode).collect::<Option<Vec<_>>>()?;
+            let es = groups
+                .map(|g| {
+                    let g = g.trim();
+                    match g.strip_prefix("B ") {
+                        Some(r) => GenEntry::decode(r).map(|e| (true, e)),
+                        None if g == "B" => Some((true, GenEntry { items: vec![], sample_group: vec![] })),
+                        None => GenEntry::decode(g).map(|e| (false, e)),
+                    }
+                })
+                .collect::<Option<Vec<_>>>()?;
+            Some(Case::Seq(script, ads, es))
         } else {
             None
         }
@@ -526,8 +551,28 @@ impl Case {
                 }
                 s
             }
+            Case::Seq(script, ads, es) => seq_line("seq", script, ads, es, true),
         }
     }
+}
+
+fn seq_line(head: &str, script: &[char], ads: &[W], es: &[(bool, GenEntry)], model: bool) -> String {
+    let mut s = format!(
+        "{head} {}",
+        if script.is_empty() { "-".to_string() } else { script.iter().map(|c| c.to_string()).collect::<Vec<_>>().join(",") }
+    );
+    for w in ads {
+        s.push_str(" ; ");
+        s.push_str(&w.encode(model));
+    }
+    for (boxed, e) in es {
+        s.push_str(" ;; ");
+        if *boxed {
+            s.push_str("B ");
+        }
+        s.push_str(&if model { model_items(e) } else { e.encode() });
+    }
+    s
 }
 
 /// The plain entry in model tokens: the `GenEntry` encoding with the in-band error entry expanded into
@@ -916,7 +961,7 @@ fn valid_stack_with(ws: &[W], first: usize) -> Result<(), &'static str> {
 struct RunV(Option<Recorded>);
 impl EV for RunV {
     fn visit<E: Entry>(&mut self, e: &E) {
-        self.0 = Some(record(e));
+        self.0 = Some(record_twice(e));
     }
 }
 
@@ -932,12 +977,37 @@ impl EV for BoxV {
 
 // ---- stream adapters -----------------------------------------------------------------------------
 
-/// A `Format` that records what the entry it is given writes (and its sample group).
-struct RecFormat(Rc<RefCell<Vec<Recorded>>>);
+/// writes the entry twice (sample group read after each write): an entry instance must not change by
+/// being written (no wrapper may cache or consume anything across `write` calls)
+fn record_twice<E: Entry>(e: &E) -> Recorded {
+    let a = record(e);
+    let b = record(e);
+    if a != b {
+        panic!("the same entry instance wrote {} the first time and {} the second time", show_recorded(&a), show_recorded(&b));
+    }
+    a
+}
+
+struct RecState {
+    seen: Vec<Recorded>,
+    /// what `format` answers for successive entries: `o` Ok, `v` Validation error, `i` Io error; then Ok
+    script: Vec<char>,
+    pos: usize,
+}
+
+/// A `Format` that records what the entry it is given writes (and its sample group) and answers from a script.
+struct RecFormat(Rc<RefCell<RecState>>);
 impl Format for RecFormat {
     fn format(&mut self, entry: &impl Entry, _output: &mut impl std::io::Write) -> Result<(), IoStreamError> {
-        self.0.borrow_mut().push(record(entry));
-        Ok(())
+        let mut st = self.0.borrow_mut();
+        st.seen.push(record_twice(entry));
+        let r = st.script.get(st.pos).copied().unwrap_or('o');
+        st.pos += 1;
+        match r {
+            'o' => Ok(()),
+            'v' => Err(IoStreamError::Validation(ValidationError::invalid("scripted validation error"))),
+            _ => Err(IoStreamError::Io(std::io::Error::other("scripted io error"))),
+        }
     }
 }
 
@@ -948,61 +1018,138 @@ fn deny_set(d: &Option<Vec<String>>) -> Option<HashSet<CowStr>> {
     d.as_ref().map(|l| l.iter().map(|n| Cow::Owned(n.clone())).collect())
 }
 
-trait SFuel {
-    fn sgo_f<F: Format, E: Entry>(f: F, ads: &[&W], e: &E) -> Result<(), String>;
-    fn sgo_s<St: EntryIoStream, E: Entry>(s: St, ads: &[&W], e: &E) -> Result<(), String>;
+fn res_kind(r: &Result<(), IoStreamError>) -> char {
+    match r {
+        Ok(()) => 'o',
+        Err(IoStreamError::Validation(_)) => 'v',
+        Err(IoStreamError::Io(_)) => 'i',
+    }
 }
-fn res_str(r: Result<(), IoStreamError>) -> Result<(), String> {
-    r.map_err(|e| format!("{e:?}"))
+
+/// what is done with the finished (long-lived) adapter stack
+trait Drive {
+    fn stream<St: EntryIoStream>(&mut self, s: &mut St);
+    fn format<F: Format>(&mut self, f: &mut F);
+}
+
+/// one entry
+struct One<'a, E>(&'a E, Vec<char>);
+impl<E: Entry> Drive for One<'_, E> {
+    fn stream<St: EntryIoStream>(&mut self, s: &mut St) {
+        self.1.push(res_kind(&s.next(self.0)));
+    }
+    fn format<F: Format>(&mut self, f: &mut F) {
+        self.1.push(res_kind(&f.format(self.0, &mut Vec::<u8>::new())));
+    }
+}
+
+enum SeqEntry {
+    Plain(GenEntry),
+    Boxed(BoxEntry),
+}
+
+/// a sequence of entries through the SAME instance
+struct Many<'a>(&'a [SeqEntry], Vec<char>);
+impl Drive for Many<'_> {
+    fn stream<St: EntryIoStream>(&mut self, s: &mut St) {
+        for e in self.0 {
+            let r = match e {
+                SeqEntry::Plain(g) => s.next(g),
+                SeqEntry::Boxed(b) => s.next(b),
+            };
+            self.1.push(res_kind(&r));
+        }
+    }
+    fn format<F: Format>(&mut self, f: &mut F) {
+        for e in self.0 {
+            let out = &mut Vec::<u8>::new();
+            let r = match e {
+                SeqEntry::Plain(g) => f.format(g, out),
+                SeqEntry::Boxed(b) => f.format(b, out),
+            };
+            self.1.push(res_kind(&r));
+        }
+    }
+}
+
+trait SFuel {
+    fn sgo_f<F: Format, D: Drive>(f: F, ads: &[&W], d: &mut D);
+    fn sgo_s<St: EntryIoStream, D: Drive>(s: St, ads: &[&W], d: &mut D);
 }
 impl SFuel for Z {
-    fn sgo_f<F: Format, E: Entry>(f: F, ads: &[&W], e: &E) -> Result<(), String> {
+    fn sgo_f<F: Format, D: Drive>(f: F, ads: &[&W], d: &mut D) {
         assert!(ads.is_empty(), "{BAD_STACK}");
-        res_str(f.output_to(Vec::<u8>::new()).next(e))
+        d.stream(&mut f.output_to(Vec::<u8>::new()))
     }
-    fn sgo_s<St: EntryIoStream, E: Entry>(mut s: St, ads: &[&W], e: &E) -> Result<(), String> {
+    fn sgo_s<St: EntryIoStream, D: Drive>(mut s: St, ads: &[&W], d: &mut D) {
         assert!(ads.is_empty(), "{BAD_STACK}");
-        res_str(s.next(e))
+        d.stream(&mut s)
     }
 }
 impl<N: SFuel> SFuel for S<N> {
-    fn sgo_f<F: Format, E: Entry>(f: F, ads: &[&W], e: &E) -> Result<(), String> {
+    fn sgo_f<F: Format, D: Drive>(f: F, ads: &[&W], d: &mut D) {
         let Some((w, rest)) = ads.split_first() else {
             let mut f = f;
-            return res_str(f.format(e, &mut Vec::<u8>::new()));
+            return d.format(&mut f);
         };
         match w {
-            W::StreamGlobals(true, g) => N::sgo_f(FormatExt::merge_globals(f, g.clone()), rest, e),
-            W::StreamDims(true, d, deny) => {
-                N::sgo_f(FormatExt::merge_global_dimensions(f, sv_dims::<2>(d), deny_set(deny)), rest, e)
+            W::StreamGlobals(true, g) => N::sgo_f(FormatExt::merge_globals(f, g.clone()), rest, d),
+            W::StreamDims(true, dm, deny) => {
+                N::sgo_f(FormatExt::merge_global_dimensions(f, sv_dims::<2>(dm), deny_set(deny)), rest, d)
             }
-            _ => Self::sgo_s(f.output_to(Vec::<u8>::new()), ads, e),
+            _ => Self::sgo_s(f.output_to(Vec::<u8>::new()), ads, d),
         }
     }
-    fn sgo_s<St: EntryIoStream, E: Entry>(mut s: St, ads: &[&W], e: &E) -> Result<(), String> {
-        let Some((w, rest)) = ads.split_first() else { return res_str(s.next(e)) };
+    fn sgo_s<St: EntryIoStream, D: Drive>(mut s: St, ads: &[&W], d: &mut D) {
+        let Some((w, rest)) = ads.split_first() else { return d.stream(&mut s) };
         match w {
-            W::StreamGlobals(false, g) => N::sgo_s(EntryIoStreamExt::merge_globals(s, g.clone()), rest, e),
-            W::StreamDims(false, d, deny) => {
-                N::sgo_s(EntryIoStreamExt::merge_global_dimensions(s, sv_dims::<1>(d), deny_set(deny)), rest, e)
+            W::StreamGlobals(false, g) => N::sgo_s(EntryIoStreamExt::merge_globals(s, g.clone()), rest, d),
+            W::StreamDims(false, dm, deny) => {
+                N::sgo_s(EntryIoStreamExt::merge_global_dimensions(s, sv_dims::<1>(dm), deny_set(deny)), rest, d)
             }
-            W::StreamForce(Mode::High) => N::sgo_s(ForceFlag::<St, HighStorageResolutionCtor>::from(s), rest, e),
-            W::StreamForce(Mode::NoMetric) => N::sgo_s(ForceFlag::<St, NoMetricCtor>::from(s), rest, e),
+            W::StreamForce(Mode::High) => N::sgo_s(ForceFlag::<St, HighStorageResolutionCtor>::from(s), rest, d),
+            W::StreamForce(Mode::NoMetric) => N::sgo_s(ForceFlag::<St, NoMetricCtor>::from(s), rest, d),
             _ => panic!("{BAD_STACK}"),
         }
     }
 }
 
-fn run_streams<E: Entry>(e: &E, stream_ws: &[W]) -> Result<Recorded, String> {
-    let sink = Rc::new(RefCell::new(vec![]));
+/// builds ONE adapter stack over a scripted recording format and hands it to the driver
+fn drive_streams<D: Drive>(stream_ws: &[W], script: &[char], d: &mut D) -> Vec<Recorded> {
+    let sink = Rc::new(RefCell::new(RecState { seen: vec![], script: script.to_vec(), pos: 0 }));
     // the outermost wrapper is the adapter applied first to the recording format
     let ads: Vec<&W> = stream_ws.iter().rev().collect();
-    <S<S<S<Z>>>>::sgo_f(RecFormat(sink.clone()), &ads, e)?;
-    let mut got = sink.borrow_mut();
+    <S<S<S<Z>>>>::sgo_f(RecFormat(sink.clone()), &ads, d);
+    let seen = std::mem::take(&mut sink.borrow_mut().seen);
+    seen
+}
+
+fn run_streams<E: Entry>(e: &E, stream_ws: &[W]) -> Result<Recorded, String> {
+    let mut d = One(e, vec![]);
+    let mut got = drive_streams(stream_ws, &[], &mut d);
+    if d.1 != ['o'] {
+        return Err(format!("the adapters returned {:?} although the format below returned Ok", d.1));
+    }
     if got.len() != 1 {
         return Err(format!("the format was called {} times for one entry", got.len()));
     }
     Ok(got.pop().unwrap())
+}
+
+/// the long-lived instance: every entry of the sequence through the same adapter stack
+fn run_seq(adapters: &[W], script: &[char], entries: &[(bool, GenEntry)]) -> Result<(Vec<Recorded>, Vec<char>), String> {
+    match catch(|| {
+        let es: Vec<SeqEntry> = entries
+            .iter()
+            .map(|(boxed, g)| if *boxed { SeqEntry::Boxed(BoxEntry::new(g.clone())) } else { SeqEntry::Plain(g.clone()) })
+            .collect();
+        let mut d = Many(&es, vec![]);
+        let seen = drive_streams(adapters, script, &mut d);
+        (seen, d.1)
+    }) {
+        Ok(x) => Ok(x),
+        Err(p) => Err(format!("panic:{p}")),
+    }
 }
 
 /// the implementation: builds the real wrapped type and records what it writes
@@ -1054,7 +1201,12 @@ trait VV {
 struct RunVV(Option<RVal>);
 impl VV for RunVV {
     fn visit<T: Value>(&mut self, v: &T) {
-        self.0 = Some(record_value(v));
+        let a = record_value(v);
+        let b = record_value(v);
+        if a != b {
+            panic!("the same value instance wrote {} then {}", show_val(&a), show_val(&b));
+        }
+        self.0 = Some(a);
     }
 }
 
@@ -1359,6 +1511,63 @@ fn check(c: &Case) -> Result<String, (String, String, String)> {
             }
             Ok(shown)
         }
+        Case::Seq(script, ads, es) => {
+            let (seen, results) = match run_seq(ads, script, es) {
+                Ok(x) => x,
+                Err(e) => return Err(("panic-or-error".into(), format!("sequence through the adapters failed: {e}"), e)),
+            };
+            let show = |seen: &[Recorded], results: &[char]| -> String {
+                seen.iter()
+                    .enumerate()
+                    .map(|(i, r)| format!("{} # {}", show_recorded(r), results.get(i).copied().unwrap_or('?')))
+                    .collect::<Vec<_>>()
+                    .join(" ;; ")
+            };
+            let shown = show(&seen, &results);
+            if seen.len() != es.len() || results.len() != es.len() {
+                return Err((
+                    "sequence-calls".into(),
+                    format!("{} entries sent, the format below was called {} times, {} results returned", es.len(), seen.len(), results.len()),
+                    shown,
+                ));
+            }
+            for (i, (boxed, e)) in es.iter().enumerate() {
+                // (a) a FRESH instance of the same adapters, given this entry alone
+                let fresh = if *boxed { run_streams(&BoxEntry::new(e.clone()), ads) } else { run_streams(e, ads) };
+                let fresh = match fresh {
+                    Ok(f) => f,
+                    Err(err) => return Err(("panic-or-error".into(), format!("fresh adapters failed on entry #{i}: {err}"), shown)),
+                };
+                if seen[i] != fresh {
+                    return Err((
+                        "sequence-history".into(),
+                        format!(
+                            "entry #{i} through the long-lived adapters differs from the same entry through fresh adapters: want {}",
+                            show_recorded(&fresh)
+                        ),
+                        shown,
+                    ));
+                }
+                // (b) plain entry + documented additions
+                let want = expected_entry(&record(e), ads, &|o| record(o));
+                if seen[i] != want {
+                    return Err((
+                        "log".into(),
+                        format!("entry #{i}: call log / sample group differs from plain + documented additions: want {}", show_recorded(&want)),
+                        shown,
+                    ));
+                }
+                let want_res = script.get(i).copied().unwrap_or('o');
+                if results[i] != want_res {
+                    return Err((
+                        "sequence-result".into(),
+                        format!("entry #{i}: the format below answered {want_res}, the adapters returned {}", results[i]),
+                        shown,
+                    ));
+                }
+            }
+            Ok(shown)
+        }
         Case::Value(base, ws) => {
             let plain = record_value(base);
             let got = match run_value(base, ws) {
@@ -1388,6 +1597,15 @@ fn valid(c: &Case) -> Result<(), &'static str> {
                 }
             }
             valid_stack_with(ws, 1)
+        }
+        Case::Seq(_, ads, es) => {
+            if ads.iter().any(|w| !w.is_stream()) {
+                return Err("only stream / format adapters in a sequence case");
+            }
+            if es.is_empty() || es.len() > 8 {
+                return Err("sequence of 1..=8 entries");
+            }
+            valid_stack(ads)
         }
     }
 }
@@ -1454,6 +1672,33 @@ fn shrink(c: &Case) -> Case {
             let ws2 = shrink_list(ws, |s| fails(&Case::Value(base.clone(), s.to_vec())));
             Case::Value(base.clone(), ws2)
         }
+        Case::Seq(script, ads, es) => {
+            // entries together with the answer they got
+            let pairs: Vec<(char, bool, GenEntry)> =
+                es.iter().enumerate().map(|(i, (b, e))| (script.get(i).copied().unwrap_or('o'), *b, e.clone())).collect();
+            let mk = |pairs: &[(char, bool, GenEntry)], ads: &[W]| {
+                Case::Seq(pairs.iter().map(|p| p.0).collect(), ads.to_vec(), pairs.iter().map(|p| (p.1, p.2.clone())).collect())
+            };
+            let mut pairs = shrink_list(&pairs, |s| !s.is_empty() && fails(&mk(s, ads)));
+            let ads2 = shrink_list(ads, |s| fails(&mk(&pairs, s)));
+            for i in 0..pairs.len() {
+                if pairs[i].1 {
+                    let mut cand = pairs.clone();
+                    cand[i].1 = false;
+                    if fails(&mk(&cand, &ads2)) {
+                        pairs = cand;
+                    }
+                }
+                let snapshot = pairs.clone();
+                let small = shrink_entry_items(&snapshot[i].2, |e| {
+                    let mut cand = snapshot.clone();
+                    cand[i].2 = e.clone();
+                    fails(&mk(&cand, &ads2))
+                });
+                pairs[i].2 = small;
+            }
+            mk(&pairs, &ads2)
+        }
         Case::WEntry(base, ws) => {
             let ws2 = shrink_list(ws, |s| fails(&Case::WEntry(base.clone(), s.to_vec())));
             let items = shrink_list(&base.items, |s| {
@@ -1472,6 +1717,7 @@ fn site_key(c: &Case, class: &str) -> String {
         Case::Entry(_, ws) => ws.iter().map(|w| w.kind()).collect(),
         Case::Value(_, ws) => ws.iter().map(|w| w.kind()).collect(),
         Case::WEntry(_, ws) => std::iter::once("wrapped-values").chain(ws.iter().map(|w| w.kind())).collect(),
+        Case::Seq(_, ads, _) => std::iter::once("sequence").chain(ads.iter().map(|w| w.kind())).collect(),
     };
     format!("wrappers:{}:{}", class, if kinds.is_empty() { "plain".to_string() } else { kinds.join("/") })
 }
@@ -1670,27 +1916,49 @@ fn gen_stack_with(rng: &mut Rng, depth: usize, base: &GenEntry, first: usize) ->
         ws.push(w);
     }
     if n_stream > 0 && (run == 0) {
-        // stream-level adapters first (inner), format-level ones outermost
-        let n_fmt = rng.range(0, n_stream as u64) as usize;
-        for i in 0..n_stream {
-            let fmt = i >= n_stream - n_fmt;
-            let w = match rng.below(if fmt { 2 } else { 3 }) {
-                0 => {
-                    let g = gen_base(rng, 3);
-                    names.extend(names_of(&g));
-                    W::StreamGlobals(fmt, g)
-                }
-                1 => {
-                    let dims = if rng.chance(1, 4) { vec![] } else { gen_dims(rng) };
-                    let deny = if rng.chance(1, 4) { None } else { Some(gen_deny(rng, &names)) };
-                    W::StreamDims(fmt, dims, deny)
-                }
-                _ => W::StreamForce(gen_mode(rng)),
-            };
-            ws.push(w);
-        }
+        ws.extend(gen_adapters(rng, n_stream, &mut names));
     }
     ws
+}
+
+/// `n` stream / format adapters, innermost wrapper first: stream-level ones first, format-level ones outermost
+fn gen_adapters(rng: &mut Rng, n_stream: usize, names: &mut Vec<String>) -> Vec<W> {
+    let mut ws = vec![];
+    let n_fmt = rng.range(0, n_stream as u64) as usize;
+    for i in 0..n_stream {
+        let fmt = i >= n_stream - n_fmt;
+        let w = match rng.below(if fmt { 2 } else { 3 }) {
+            0 => {
+                let g = gen_base(rng, 3);
+                names.extend(names_of(&g));
+                W::StreamGlobals(fmt, g)
+            }
+            1 => {
+                let dims = if rng.chance(1, 4) { vec![] } else { gen_dims(rng) };
+                let deny = if rng.chance(1, 4) { None } else { Some(gen_deny(rng, names)) };
+                W::StreamDims(fmt, dims, deny)
+            }
+            _ => W::StreamForce(gen_mode(rng)),
+        };
+        ws.push(w);
+    }
+    ws
+}
+
+fn gen_seq(rng: &mut Rng) -> Case {
+    let n = rng.range(2, 6) as usize;
+    let es: Vec<(bool, GenEntry)> = (0..n).map(|_| (rng.chance(1, 2), gen_base(rng, 4))).collect();
+    let mut names: Vec<String> = es.iter().flat_map(|(_, e)| names_of(e)).collect();
+    let k = rng.range(1, 3) as usize;
+    let ads = gen_adapters(rng, k, &mut names);
+    let script: Vec<char> = (0..rng.range(0, n as u64))
+        .map(|_| match rng.below(4) {
+            0..=1 => 'o',
+            2 => 'v',
+            _ => 'i',
+        })
+        .collect();
+    Case::Seq(script, ads, es)
 }
 
 fn gen_vstack(rng: &mut Rng, depth: usize) -> Vec<VW> {
@@ -1751,7 +2019,9 @@ fn gen_ventry(rng: &mut Rng) -> VEntry {
 }
 
 fn gen_case(rng: &mut Rng, max_depth: usize) -> Case {
-    if rng.chance(1, 4) {
+    if rng.chance(1, 6) {
+        gen_seq(rng)
+    } else if rng.chance(1, 4) {
         let d = rng.range(0, VDEPTH as u64) as usize;
         Case::Value(gen_val(rng), gen_vstack(rng, d))
     } else if rng.chance(1, 4) {
@@ -1844,6 +2114,21 @@ fn describe(rep: &mut Report, c: &Case, shown: &str) {
                 rep.bump("wrapped log empty");
             }
         }
+        Case::Seq(script, ads, es) => {
+            rep.bump(&format!("sequence length:{}", es.len()));
+            rep.bump(&format!("sequence adapters:{}", ads.len()));
+            for w in ads {
+                rep.bump(&format!("sequence adapter:{}", w.kind()));
+            }
+            for c in script {
+                rep.bump(&format!("sequence answer below:{c}"));
+            }
+            if let Some(first_err) = script.iter().position(|c| *c != 'o') {
+                rep.bump_by("sequence entries after an error below", (es.len() - first_err - 1) as u64);
+            }
+            rep.bump_by("sequence entries boxed", es.iter().filter(|(b, _)| *b).count() as u64);
+            let _ = shown;
+        }
         Case::Value(base, ws) => {
             rep.bump(&format!("value-stack depth:{}", ws.len()));
             for w in ws {
@@ -1865,6 +2150,11 @@ fn nontrivial(c: &Case, shown: &str) -> bool {
         Case::Value(_, ws) => !ws.is_empty() && shown != "N",
         Case::WEntry(e, ws) => {
             !ws.is_empty() && !shown.starts_with("_ ") && e.items.iter().any(|i| matches!(i, VI::Wrapped(..)))
+        }
+        // some entry that writes something comes after an entry the format below rejected
+        Case::Seq(script, ads, es) => {
+            !ads.is_empty()
+                && script.iter().position(|c| *c != 'o').map_or(false, |p| es[p + 1..].iter().any(|(_, e)| !e.items.is_empty()))
         }
     }
 }
@@ -1913,6 +2203,7 @@ fn run_batch(rep: &mut Report, args: &Args, cases: &[Case], sample_every: usize)
                         Case::Entry(..) => "wrappers/entry-stack",
                         Case::Value(..) => "wrappers/value-stack",
                         Case::WEntry(..) => "wrappers/entry-stack-over-wrapped-values",
+                        Case::Seq(..) => "wrappers/adapter-sequence",
                     };
                     rep.disagreement(comp, &cases[*ci].encode(), got, reply);
                 }
@@ -2005,6 +2296,23 @@ fn systematic_cases(rng: &mut Rng) -> Vec<Case> {
         }
     }
     out.push(Case::WEntry(wbase(), vec![]));
+    // one long-lived adapter (and every valid pair) x answer scripts with an error first / in the middle
+    let adapters: Vec<W> = kinds(rng).into_iter().filter(|w| w.is_stream()).collect();
+    let mut stacks: Vec<Vec<W>> = adapters.iter().map(|a| vec![a.clone()]).collect();
+    for a in &adapters {
+        for b in &adapters {
+            let st = vec![a.clone(), b.clone()];
+            if valid_stack(&st).is_ok() {
+                stacks.push(st);
+            }
+        }
+    }
+    for st in stacks {
+        for script in ["o,o,o", "v,o,o", "i,v,o", "o,i,o"] {
+            let es = vec![(false, base()), (true, base()), (false, other()), (false, base())];
+            out.push(Case::Seq(script.split(',').map(|t| t.chars().next().unwrap()).collect(), st.clone(), es));
+        }
+    }
     let vbase = || dec_val("Mu436f756e74:h:415a~61:u7;f3ff8000000000000").unwrap();
     let vkinds = || {
         vec![
@@ -2051,6 +2359,18 @@ fn neighbour(rng: &mut Rng, c: &Case, max_depth: usize) -> Case {
             }
             _ => gen_case(rng, max_depth),
         },
+        Case::Seq(script, ads, es) => match rng.below(3) {
+            0 => {
+                // same adapters and answers, other entries
+                let es2 = es.iter().map(|(b, _)| (*b, gen_base(rng, 4))).collect();
+                Case::Seq(script.clone(), ads.clone(), es2)
+            }
+            1 => {
+                let sc = (0..es.len()).map(|_| *rng.pick(&['o', 'v', 'i'])).collect();
+                Case::Seq(sc, ads.clone(), es.clone())
+            }
+            _ => gen_seq(rng),
+        },
         Case::WEntry(base, ws) => match rng.below(3) {
             0 => Case::WEntry(gen_ventry(rng), ws.clone()),
             1 => {
@@ -2073,9 +2393,11 @@ fn neighbour(rng: &mut Rng, c: &Case, max_depth: usize) -> Case {
 fn main() {
     quiet_panics();
     let args = Args::parse();
-    let rule = "case = (plain entry, stack of entry wrappers / stream adapters) or (plain value, stack of value wrappers); \
+    let rule = "case = (plain entry, stack of entry wrappers / stream adapters) or (plain value, stack of value wrappers) or \
+                (entry with wrapped values, stack) or (one long-lived adapter stack, script of answers below, sequence of entries); \
                 non-trivial = the stack is non-empty and the wrapped entry still writes at least one call \
-                (value: the wrapped value still makes a call); distinct by case text";
+                (value: the wrapped value still makes a call; sequence: a non-empty entry follows an entry the format below rejected); \
+                distinct by case text";
     let mut rep = Report::new(&args, "wrappers", rule);
     let mut rng = Rng::new(args.seed);
     let max_depth = if args.thorough() { 7 } else { 4 };
